@@ -49,7 +49,12 @@ PLANS = {
 PLANS["C15"] = dict(engine="ops")
 PLANS["C16"] = dict(engine="ops")
 PLANS["C20"] = dict(engine="diff")
-PLANS["C07"] = dict(engine="lin")
+# C07: concurrent histories (stress engine) + the Add/Remove-versus-reader interleavings that a sequential driver can force
+PLANS["C07"] = dict(engine="lin", mc=["MC_Sched"],
+                    also_ino=dict(quick=[("lag", 120, ""), ("endwatch", 120, ""), ("close", 60, "")],
+                                  thorough=[("lag", 3000, ""), ("endwatch", 3000, ""), ("close", 1500, "")]))
+# a violation of the sequential result specification (C04) in such a history is also a C07 violation
+ALIAS = {"C07": ("C04",)}
 
 TEXT = {
     "C01": "No lost events", "C02": "No phantom events", "C03": "Order", "C04": "Watch-set semantics",
